@@ -171,8 +171,10 @@ class Generator(object):
         self.encode_variable_lines = []
         self.decode_variable_lines = []
         self.used_user_types = []
+        self.default_variables = {}
 
     def reset_type(self):
+        self.default_variables = {}
         self.helper_lines = []
         self.base_variables = set()
         self.used_suffixes_by_base_variables = {}
@@ -364,6 +366,22 @@ class Generator(object):
             self.decode_variable_lines.append(line)
 
         return unique_name
+
+    def get_default_variable(self, member):
+        """Returns the name of the constant holding the default value
+        of given buffer member. The constant is created on first use.
+
+        """
+
+        key = id(member)
+
+        if key not in self.default_variables:
+            default_value = '{{' + ', '.join(['0x%02X' % m for m in member.default]) + '}};'
+            self.default_variables[key] = self.add_unique_variable(
+                'static const uint8_t {}[] = ' + default_value,
+                canonical(member.name) + '_default')
+
+        return self.default_variables[key]
 
     def add_unique_encode_variable(self, fmt, name):
         return self.add_unique_variable(fmt, name, 'encode')
@@ -576,20 +594,38 @@ class Generator(object):
             name = '{}{}'.format(location, canonical(member.name))
 
             if self.is_buffer_type(member):
-                default_value = '{{' + ', '.join(['0x%02X' % m for m in member.default]) + '}};'
-                default_variable = self.add_unique_variable('static const uint8_t {}[] = ' + default_value,
-                                                            canonical(member.name) + '_default')
+                default_variable = self.get_default_variable(member)
+
+                # A fixed size buffer has no length member.
+                fixed_size = (member_checker.minimum == member_checker.maximum)
+
+                if fixed_size:
+                    condition_lines = [
+                        'if (memcmp(src_p->{}.buf, {}, sizeof({})) != 0) {{'.format(
+                            name,
+                            default_variable,
+                            default_variable)
+                    ]
+                    length_lines = []
+                else:
+                    condition_lines = [
+                        'if ((memcmp(src_p->{}.buf, {}, sizeof({})) != 0) ||'.format(
+                            name,
+                            default_variable,
+                            default_variable),
+                        '    (src_p->{}.length != sizeof({}))) {{'.format(
+                            name,
+                            default_variable)
+                    ]
+                    length_lines = [
+                        '    dst_p->{}.length = sizeof({});'.format(
+                            name,
+                            default_variable)
+                    ]
 
                 encode_lines = [
-                                   '',
-                                   'if ((memcmp(src_p->{}.buf, {}, sizeof({})) != 0) ||'.format(
-                                       name,
-                                       default_variable,
-                                       default_variable),
-                                   '    (src_p->{}.length != sizeof({}))) {{'.format(
-                                       name,
-                                       default_variable)
-                               ] + indent_lines(encode_lines) + [
+                                   ''
+                               ] + condition_lines + indent_lines(encode_lines) + [
                                    '}',
                                    ''
                                ]
@@ -601,11 +637,8 @@ class Generator(object):
                                    '    memcpy(dst_p->{}.buf, {}, sizeof({}));'.format(
                                        name,
                                        default_variable,
-                                       default_variable),
-                                   '    dst_p->{}.length = sizeof({});'.format(
-                                       name,
-                                       default_variable
-                                   ),
+                                       default_variable)
+                               ] + length_lines + [
                                    '}',
                                    ''
                                ]
